@@ -103,6 +103,14 @@ func TestC06Rapid(t *testing.T) {
 		if tc.opts.fromGenesis {
 			c.Class("l2-started-from-default-genesis")
 		}
+		if rapid.IntRange(0, 3).Draw(rt, "presetMetadata") == 0 {
+			// the L2 bank module already has display metadata for the bridged tokens (e.g. from its genesis)
+			for _, d := range []string{"uinit", "uusdc"} {
+				l2d := tcL2Denom(tc, d)
+				tc.l2.BK.SetDenomMetaData(tc.l2.Ctx, banktypes.Metadata{Base: l2d, Display: l2d, Name: "preset", Symbol: "PRE", DenomUnits: []*banktypes.DenomUnit{{Denom: l2d, Exponent: 0}}})
+			}
+			c.Class("l2-bank-metadata-preset")
+		}
 		stranger := henv.MakeUser("c06-stranger")
 		nd := rapid.IntRange(1, 6).Draw(rt, "deposits")
 		var pend []*pendingDeposit
